@@ -55,6 +55,10 @@ def _family(rng):
             kern.append([l, r])
         kern = [list(x) for x in {tuple(k) for k in kern}]
         kvals = [[rng.randint(-60, 60) * 4 + rng.choice([0, 2]) for _ in kern] for _m in range(nm)]
+        if nm >= 2 and rng.random() < 0.3:
+            # a (non-default) master that kerns nothing: every pair is 0 there
+            k0 = rng.choice([j for j in range(nm) if j != default])
+            kvals[k0] = [0 for _ in kern]
         info = [{"ascender": rng.randint(700, 900), "xHeight": rng.randint(400, 600) + rng.choice([0, 0.5]), "capHeight": rng.randint(600, 800)}
                 for _m in range(nm)]
         rules = []
@@ -92,7 +96,8 @@ def _build(case):
     for k, gs in enumerate(fam["masters"]):
         ufo = {"glyphs": gs, "order": sorted(gs), "glyphNames": sorted(gs),
                "info": dict(unitsPerEm=1000, descender=-200, familyName="InstTest", styleName=f"M{k}", **fam["info"][k]),
-               "kerning": [[l, r, fam["kvals"][k][j]] for j, (l, r) in enumerate(fam["kern"])], "kernScale": 4,
+               "kerning": ([] if fam["kern"] and not any(fam["kvals"][k]) else
+                           [[l, r, fam["kvals"][k][j]] for j, (l, r) in enumerate(fam["kern"])]), "kernScale": 4,
                "groups": [list(g) for g in fam.get("groups", [])]}
         masters.append({"loc": {"Weight": fam["locs"][k]}, "ufo": ufo, "name": f"M{k}"})
     d = fam["locs"][fam["default"]]
